@@ -93,6 +93,86 @@ theorem C03_setter_caught (setter : Key → List (Key × Val) → SetterResult) 
     (Setters.apply1 setter s f rest).2.2 = s.failed ++ [f] ∧ (Setters.apply1 setter s f rest).2.1 = s.mapping := by
   simp [Setters.apply1, h]
 
+/-- `contains`: total on every value, for a constraint whose members (when it is a
+    collection) are hashable — `set(expected_values)` is the only partial operation -/
+theorem C03_contains (env : Env) (ctx : Ctx) (schema doc : Val) (f : Key) (c v : Val)
+    (hc : ∀ xs, c.pyIter? "_validate_contains" = .ok xs → c.isStr = false → xs.all Val.hashable = true) :
+    ∃ r, V.hContains env ctx schema doc f c v = .ok r := by
+  unfold V.hContains
+  by_cases hv : v.isIterable = true
+  · have hvi : ∃ ys, v.pyIter? "_validate_contains" = .ok ys := by
+      cases v <;> simp [Val.isIterable] at hv <;> simp [Val.pyIter?]
+    obtain ⟨ys, hys⟩ := hvi
+    by_cases hci : (!c.isIterable || c.isStr) = true
+    · simp only [hv, Bool.not_true, Bool.false_eq_true, if_false, hci, if_true, hys, liftPy, bind, Except.bind, pure,
+        Except.pure]
+      split <;> exact ⟨_, rfl⟩
+    · have hci' : (!c.isIterable || c.isStr) = false := by simpa using hci
+      have hcit : c.isIterable = true ∧ c.isStr = false := by
+        cases h1 : c.isIterable <;> cases h2 : c.isStr <;> simp_all
+      have hxs : ∃ xs, c.pyIter? "_validate_contains" = .ok xs := by
+        cases c <;> simp [Val.isIterable] at hcit <;> simp [Val.pyIter?]
+      obtain ⟨xs, hxs⟩ := hxs
+      have hall := hc xs hxs hcit.2
+      simp only [hv, Bool.not_true, Bool.false_eq_true, if_false, hci', hxs, hys, liftPy, bind, Except.bind, pure,
+        Except.pure, Val.pySet?, hall, if_true]
+      split <;> exact ⟨_, rfl⟩
+  · have hv' : v.isIterable = false := by simpa using hv
+    simp only [hv', Bool.not_false, if_true]
+    exact ⟨_, rfl⟩
+
+/-- are all dependency names strings? (the quantifier of the property) -/
+def depNamesStr : Val → Bool
+  | .str _ => true
+  | .seq _ xs => xs.all Val.isStr
+  | .dict kvs => kvs.all (fun kv => match kv.1 with | .s _ => true | .i _ => false)
+  | _ => false
+
+theorem depsSequence_total (ctx : Ctx) (doc : Val) :
+    ∀ xs : List Val, xs.all Val.isStr = true → ∃ r, V.depsSequence ctx doc xs = .ok r
+  | [], _ => ⟨_, rfl⟩
+  | d :: ds, h => by
+    simp only [List.all_cons, Bool.and_eq_true] at h
+    obtain ⟨r, hr⟩ := depsSequence_total ctx doc ds h.2
+    cases d <;> simp [Val.isStr] at h
+    simp only [V.depsSequence, V.depName, hr, bind, Except.bind, pure, Except.pure]
+    exact ⟨_, rfl⟩
+
+theorem depsMapping_total (ctx : Ctx) (doc : Val) :
+    ∀ kvs : List (Key × Val), kvs.all (fun kv => match kv.1 with | .s _ => true | .i _ => false) = true →
+      ∃ r, V.depsMapping ctx doc kvs = .ok r
+  | [], _ => ⟨_, rfl⟩
+  | (k, vals) :: r, h => by
+    simp only [List.all_cons, Bool.and_eq_true] at h
+    obtain ⟨r', hr⟩ := depsMapping_total ctx doc r h.2
+    cases k with
+    | i n => simp at h
+    | s name =>
+      simp only [V.depsMapping, hr, bind, Except.bind, pure, Except.pure]
+      exact ⟨_, rfl⟩
+
+/-- `dependencies`: total on every document and value when the dependency names are
+    strings — dotted and root-relative paths through values of any shape included
+    (`C03_lookup`) -/
+theorem C03_dependencies (env : Env) (ctx : Ctx) (schema doc : Val) (f : Key) (c v : Val)
+    (hc : depNamesStr c = true) : ∃ r, V.hDependencies env ctx schema doc f c v = .ok r := by
+  unfold V.hDependencies
+  cases c with
+  | str s =>
+    simp only [Val.isStr, Bool.true_or, if_true]
+    exact depsSequence_total ctx doc [.str s] (by simp [Val.isStr])
+  | seq tup xs =>
+    simp only [Val.isStr, Val.isIterable, Val.isMapping, Bool.false_or, Bool.true_or, Bool.not_true, Bool.false_eq_true,
+      if_false]
+    exact depsSequence_total ctx doc xs (by simpa [depNamesStr] using hc)
+  | dict kvs =>
+    simp only [Val.isStr, Val.isIterable, Val.isMapping, Bool.false_or, Bool.or_true, Bool.not_true, Bool.false_eq_true,
+      if_false]
+    obtain ⟨bad, hb⟩ := depsMapping_total ctx doc kvs (by simpa [depNamesStr] using hc)
+    simp only [hb]
+    split <;> exact ⟨_, rfl⟩
+  | _ => simp [depNamesStr] at hc
+
 /-- dependency lookup is total on every document -/
 theorem C03_lookup (ctx : Ctx) (doc : Val) (path : String) :
     lookupField ctx doc path = none ∨ ∃ v, lookupField ctx doc path = some v := by
